@@ -1,6 +1,7 @@
 import Anysystem.Proofs.SimNetThms
 import Anysystem.Proofs.SimQueueThms
 import Anysystem.Proofs.SimLogThms
+import Anysystem.Proofs.SimTraceInv
 /-!
 # C17 — Logs, event logs, counters and outboxes tell one consistent story
 
@@ -18,5 +19,22 @@ namespace Anysystem
 #check @Sim.handleActions_send_counts
 #check @Sim.onMessage_counts
 #check @Sim.handleActions_counts
+
+/- the global trace (whole-run invariant `TraceInv`): message identifiers are 0,1,2,… in order (unique, every send logged
+   once), network_message_count / traffic equal what the trace says, every identifier with a fate or a live copy was
+   issued, and fates + live copies of one identifier are at most 1 (at most 3 for a message sent while the duplication
+   rate was positive); preserved by every operation; `single_fate_no_dupl` for whole runs -/
+#check @Sim.TraceInv.init
+#check @Sim.TraceInv.sent_ids_nodup
+#check @Sim.TraceInv.sendMessage
+#check @Sim.TraceInv.step
+#check @Sim.TraceInv.steps
+#check @Sim.TraceInv.sendLocal
+#check @Sim.TraceInv.readLocal
+#check @Sim.TraceInv.crashNode
+#check @Sim.TraceInv.recoverNode
+#check @Sim.TraceInv.addProcess
+#check @Sim.TraceInv.frame
+#check @Sim.single_fate_no_dupl
 
 end Anysystem
